@@ -142,7 +142,7 @@ CLAIMS = {
         "The ioctl split is shown to be the exact inverse of _IOC with disjoint fields covering 32 bits; the fields a "
         "decoder cuts out of one record word by shifts and masks are shown pairwise disjoint; a zero-valued member named "
         "explicitly is shown exactly when the word is zero; a member looked up in a table by a loop-narrowed rest of the word is shown "
-        "to miss for words with undeclared bits. A member whose value is imported from outside the package is reported (the host's value is not Darwin's on every host); one that cannot be evaluated is exit 2. A word cut to a width before a member selection keeps every bit of every declared member.",
+        "to miss for words with undeclared bits. A member whose value is imported from outside the package is reported (the host's value is not Darwin's on every host); one that cannot be evaluated is exit 2. A word cut to a width before a member selection keeps every bit of every declared member. Taken over (R0): C09/R1 for every position shown through enumeration members (the names are those of the bits of the argument at that position) and C20/R1 (the protections of a page fault are shown whenever the nested record gave them, decided by comparisons with None).",
         "Reference values are transcriptions of XNU headers (vstatic/oracles/darwin.py). The access-mode selection loop of "
         "serialize_open_flags (first match wins + for/else) is not decided for the undefined value 3.",
         "DESIGN.md §4 C11"),
@@ -245,7 +245,7 @@ CLAIMS["C20"] = (
     "term matching on the symbolic value of the objects returned by the three composite decoders (gates, selections by "
     "table name, sort key, END-word provenance)",
     "Decides structural clauses for all windows: page-fault result/type from END words 2/3, pid/protection from the decode of "
-    "the first real-fault record among the inner records (the decoder of those records reads the first record it is handed), taken only when present and decodable - the condition that picks "
+    "the first real-fault record among the inner records (the decoder of those records reads the first record it is handed), taken only when present and decodable and rendered whenever they are not None (a truth-value test that hides pid 0 is reported) - the condition that picks "
     "those records is evaluated for every id of the bundled code table: every RealFaultAddress* code with a registered decoder "
     "is picked and no code outside that group; launch image list = sorted by "
     "load address over every nested image-map and shared-cache-map record; sampler thread info / user stack present exactly "
